@@ -402,11 +402,21 @@ where
         self.retain_mut(|i, p| predicate(&*i, &*p));
     }
 
-    pub fn retain_mut<F>(&mut self, predicate: F)
+    pub fn retain_mut<F>(&mut self, mut predicate: F)
     where
         F: FnMut(&mut I, &mut P) -> bool,
     {
-        self.map.retain2(predicate);
+        // Ask the predicate about every element first and remove afterwards:
+        // if the predicate panics, nothing has been removed yet and the map
+        // is still consistent with the heap.
+        let keep: Vec<bool> = (0..self.map.len())
+            .map(|i| {
+                let (item, priority) = self.map.get_index_mut2(i).unwrap();
+                predicate(item, priority)
+            })
+            .collect();
+        let mut keep = keep.into_iter();
+        self.map.retain2(|_, _| keep.next().unwrap_or(true));
         if self.map.len() != self.size {
             self.size = self.map.len();
             self.heap = (0..self.size).map(Index).collect();
